@@ -502,9 +502,9 @@ func verif_Rewrite_preserves(r *httputil.ProxyRequest) {
 	verif.Ensures(verif.Called("ProxyRequest).SetXForwarded"), "users_address_appended_to_forwarded_for")
 }
 
-//verif:loopbody ~/pkg/util/vhost.NewHTTPReverseProxy$1 1 check=verifSetsRequestHeader args=k,v
-func verifSetsRequestHeader(k, v string) bool {
-	return verif.CalledWithInIter("Header).Set", 1, k) && verif.CalledWithInIter("Header).Set", 2, v)
+//verif:loopbody ~/pkg/util/vhost.NewHTTPReverseProxy$1 1 check=verifSetsRequestHeader args=k,v,r
+func verifSetsRequestHeader(k, v string, r *httputil.ProxyRequest) bool {
+	return verif.CalledWithInIter("Header).Set", 0, r.Out.Header) && verif.CalledWithInIter("Header).Set", 1, k) && verif.CalledWithInIter("Header).Set", 2, v)
 }
 
 // ModifyResponse hook, the response side: every configured response header is
@@ -524,9 +524,9 @@ func verif_ModifyResponse(r *http.Response) {
 	verif.Ensures(r.StatusCode == status0 && verif.Same(r.Body, body0), "status_and_body_untouched")
 }
 
-//verif:loopbody ~/pkg/util/vhost.NewHTTPReverseProxy$2 1 check=verifSetsResponseHeader args=k,v
-func verifSetsResponseHeader(k, v string) bool {
-	return verif.CalledWithInIter("Header).Set", 1, k) && verif.CalledWithInIter("Header).Set", 2, v)
+//verif:loopbody ~/pkg/util/vhost.NewHTTPReverseProxy$2 1 check=verifSetsResponseHeader args=k,v,r
+func verifSetsResponseHeader(k, v string, r *http.Response) bool {
+	return verif.CalledWithInIter("Header).Set", 0, r.Header) && verif.CalledWithInIter("Header).Set", 1, k) && verif.CalledWithInIter("Header).Set", 2, v)
 }
 
 // ErrorHandler: "if the backend is unreachable or does not send response
